@@ -45,6 +45,8 @@ def run(ctx):
     ctx.do(rule_no_hidden_state, "C15.history-independence")
     from .pitfalls import rule_loops_not_cut_short
     ctx.do(rule_loops_not_cut_short, "C15.loops-complete")
+    from .pitfalls import rule_definite_assignment
+    ctx.do(rule_definite_assignment, "C15.definite-assignment")
 
 
 class AStr(object):
